@@ -13,3 +13,11 @@ char *strstr(const char *h, const char *n)
         }
         return NULL;
 }
+
+size_t strnlen(const char *s, size_t n)
+{
+        size_t i = 0;
+        for (int k = 0; k < VK_STR_MAX; k++) if (i < n && s[i]) i++;
+        __CPROVER_assert(i == n || s[i] == 0, "model limit: strnlen model bound VK_STR_MAX");
+        return i;
+}
